@@ -12,8 +12,9 @@ Section C16.
 Variables (D T : Type) (d0 : D) (print : D -> T) (parse : T -> D).
 Hypothesis parse_print : forall v : D, parse (print v) = v.
 
-(* dense: every shape (any order N, singleton modes), every value list *)
-Theorem C16_roundtrip_tensor : forall (b : Z) (X : dense D), wf_dense X ->
+(* dense: every shape (any order N, singleton modes; order 0 = ttb.tensor(), which holds no entry: wf_tensor is
+   length data = (np.prod(shape) if shape else 0), i.e. wf_dense for every order >= 1), every value list *)
+Theorem C16_roundtrip_tensor : forall (b : Z) (X : dense D), wf_tensor D X ->
   import D T d0 parse b (export D T d0 print b (OTensor X)) = Some (OTensor X).
 Proof. exact (roundtrip_tensor D T d0 print parse parse_print). Qed.
 
@@ -21,6 +22,9 @@ Proof. exact (roundtrip_tensor D T d0 print parse parse_print). Qed.
    fully transposed array (what the code writes) = the F-order data list *)
 Theorem C16_dense_layout : forall X : dense D, wf_dense X -> ravelC D d0 (transpose_all D d0 X) = ddata X.
 Proof. exact (ravelC_transpose D d0). Qed.
+(* ... for every tensor pyttb can hold, the one without modes included (no value line at all) *)
+Theorem C16_dense_values : forall X : dense D, wf_tensor D X -> tensor_vals D d0 X = ddata X.
+Proof. exact (tensor_vals_data D d0). Qed.
 
 (* sparse: shape, subscripts AND their stored order, values; for every index base b written and read *)
 Theorem C16_roundtrip_sptensor : forall (b : Z) (S : sparse D),
@@ -71,9 +75,11 @@ Proof. exact (sptensor_line D T d0 print 1%Z). Qed.
 (* ---------------------------------------------------------------- the LINE-SENSITIVE import model (Model/C16Lines.v) *)
 (* import_data reads the header and every sparse entry with readline() and the dense values / weights / factor entries with
    np.fromfile, which ignores line breaks. With the file as lines of tokens and that mixed reading modelled faithfully:
-   import (the lines export writes) = the object — for every kind, order >= 1, EVERY rank (0 included: the empty weights line
-   and the empty row lines of the factors are read and dropped, /repo 20317ef repairing finding C16-N1; see
-   C16_rank0_reimported below), zero sizes included, every index base. *)
+   import (the lines export writes) = the object — for every kind, EVERY order (0 included since /repo b512e35, which repaired
+   finding C16-N2: the objects without modes are ttb.tensor() / ttb.sptensor() / ttb.ktensor(), which hold nothing — wf_tensor
+   and wf_lines say so — and the 0-d array with its one entry; see C16_order0_reimported below), EVERY rank (0 included: the
+   empty weights line and the empty row lines of the factors are read and dropped, /repo 20317ef repairing finding C16-N1;
+   see C16_rank0_reimported below), zero sizes included, every index base. *)
 Theorem C16_roundtrip_lines : forall (ofZ : Z -> D) (b : Z) (o : obj D), wf_obj D o -> wf_lines D o ->
   import_lines D T d0 parse ofZ b (export_lines D T d0 print b o) = Some o.
 Proof. exact (fun ofZ => roundtrip_lines D T d0 print parse ofZ parse_print). Qed.
@@ -113,6 +119,27 @@ Theorem C16_import_sptensor_in_range : forall (b : Z) (f : list (list (token T))
   import_lines D T d0 parse ofZ b f = Some (OSptensor Sp) ->
   Forall (fun i => inb (sshape Sp) i = true) (ssubs Sp) /\ length (ssubs Sp) = length (svals Sp).
 Proof. exact (import_sptensor_in_range D T d0 parse ofZ). Qed.
+
+(* import_shape, EXACTLY: the order line's first token is an integer text n, all tokens of the sizes line are integer texts and
+   there are n of them — an empty sizes line exactly for n = 0 *)
+Theorem C16_import_shape_guard : forall (s : stream T) (zs : list Z) (r : stream T),
+  rd_shape_z T s = Some (zs, r) <->
+  head_int T (fst (readline T s)) = Some (Z.of_nat (length zs)) /\
+  all_ints T (fst (readline T (snd (readline T s)))) = Some zs /\
+  r = snd (readline T (snd (readline T s))).
+Proof. exact (rd_shape_z_iff T). Qed.
+
+(* WITHOUT modes import_data returns only what pyttb can hold: the tensor without entries, the sparse tensor without stored
+   entry, the Kruskal tensor without weights — a file of order 0 that announces sparse entries or a rank is rejected *)
+Theorem C16_import_order0 : forall (b : Z) (f : list (list (token T))) (o : obj D),
+  import_lines D T d0 parse ofZ b f = Some o ->
+  match o with
+  | OTensor X => dshape X = [] -> ddata X = []
+  | OSptensor Sp => sshape Sp = [] -> ssubs Sp = [] /\ svals Sp = []
+  | OKtensor K => kfactors K = [] -> kweights K = []
+  | _ => True
+  end.
+Proof. exact (import_order0 D T d0 parse ofZ). Qed.
 End C16_guards.
 
 (* export_data's optional fmt_data / fmt_weights only change the number texts: the layout (words, integers, how many
@@ -125,7 +152,7 @@ Proof. exact export_layout_format_free. Qed.
 (* ---------------------------------------------------------------- sparse tensors with LONG modes (Model/C16Big.v) *)
 (* subscripts and mode sizes in Z: a sparse tensor may have modes of any length (2^60, ...), only the stored entries take
    memory. Same line-sensitive reading as above, over Z: import (the lines export writes) = the tensor, for EVERY shape in Z
-   (order >= 1), every stored order, every index base *)
+   (order 0 = no stored entry), every stored order, every index base *)
 Theorem C16_roundtrip_sptensor_long : forall (D T : Type) (print : D -> T) (parse : T -> D) (ofZ : Z -> D),
   (forall v : D, parse (print v) = v) -> forall (b : Z) (S : spz D), wf_spz D S ->
   import_spz_lines D T parse ofZ b (export_spz_lines D T print b S) = Some S.
@@ -141,8 +168,9 @@ Proof. exact export_spz_bridge. Qed.
 
 (* ---------------------------------------------------------------- from CHARACTERS to tokens (Model/C16Text.v) *)
 (* readline().strip().split(" ") and np.fromfile's white-space skipping as one pass over the characters of the file (blank,
-   CR, LF, tab / VT / FF, pieces free of white space). However each line is padded with blanks before and after its tokens and whichever
-   line end (LF or CR LF) it carries, the token stream is that of the lines *)
+   CR, LF, tab / VT / FF, pieces free of white space); the file is opened with newline="\n" (/repo a0b5a3f, repairing finding
+   C16-N3): only LF ends a line, CR is white space. However each line is padded with blanks before and after its tokens and
+   whichever line end (LF or CR LF) it carries, the token stream is that of the lines *)
 Theorem C16_tokenise : forall (T : Type) (f : list (list (token T) * style)),
   lex T (render T f) = to_stream T (map fst f).
 Proof. exact lex_render. Qed.
@@ -171,6 +199,23 @@ Proof. exact lex_ows_next_to_blank. Qed.
 Theorem C16_tab_joins_texts : forall (T : Type) (t u : token T) (k : nat) (r : list (atom T)),
   lex_aux T false 0 (ATok t :: repeat AOws (S k) ++ ATok u :: r) = gap T :: Some t :: gap T :: Some u :: lex_aux T true 0 r.
 Proof. exact lex_ows_glue. Qed.
+
+(* CARRIAGE RETURNS anywhere (CR LF line ends, lone CRs, CRs among the padding or between two texts) are read exactly like
+   tabs: replacing every CR of a file by a tab changes neither the token stream nor what import_data returns; a lone CR does
+   not end a line (a file with old-Mac line ends is one line: rejected, C16_example_cr) *)
+Theorem C16_cr_is_white_space : forall (T : Type) (a : list (atom T)), lex T (map (cr_ows T) a) = lex T a.
+Proof. exact lex_cr_ows. Qed.
+Theorem C16_import_cr_is_white_space : forall (D T : Type) (d0 : D) (parse : T -> D) (ofZ : Z -> D) (b : Z) (a : list (atom T)),
+  import_text D T d0 parse ofZ b (map (cr_ows T) a) = import_text D T d0 parse ofZ b a.
+Proof. exact import_text_cr_ows. Qed.
+
+(* hence the round trip with carriage returns anywhere among the padding of the lines export writes *)
+Theorem C16_roundtrip_text_cr : forall (D T : Type) (d0 : D) (print : D -> T) (parse : T -> D) (ofZ : Z -> D),
+  (forall v : D, parse (print v) = v) -> forall (b : Z) (o : obj D) (sty : list wstyle) (a : list (atom T)),
+  wf_obj D o -> wf_lines D o -> length sty = length (export_lines D T d0 print b o) ->
+  map (cr_ows T) a = render_ws T (combine (export_lines D T d0 print b o) sty) ->
+  import_text D T d0 parse ofZ b a = Some o.
+Proof. exact roundtrip_text_cr. Qed.
 
 (* ---------------------------------------------------------------- ANY number format (Proofs/C16Fmt.v) *)
 (* import_data looks at a number text only through parse: parsing every number text of a file beforehand changes nothing *)
@@ -210,6 +255,12 @@ Print Assumptions C16_tokenise_ws.
 Print Assumptions C16_roundtrip_text_ws.
 Print Assumptions C16_tab_next_to_blank.
 Print Assumptions C16_tab_joins_texts.
+Print Assumptions C16_dense_values.
+Print Assumptions C16_import_order0.
+Print Assumptions C16_import_shape_guard.
+Print Assumptions C16_cr_is_white_space.
+Print Assumptions C16_import_cr_is_white_space.
+Print Assumptions C16_roundtrip_text_cr.
 Print Assumptions C16_import_parse_natural.
 Print Assumptions C16_roundtrip_any_format.
 
@@ -286,6 +337,28 @@ Example C16_rank0_reimported :
   /\ zimport_lines 1 [[Word "ktensor"]; [Int 1]; [Int 2]; [Int 2]; [Num 5; Num 6]; [Word "matrix"]; [Int 2]; [Int 2; Int 0]; []; []]%Z = None.
 Proof. vm_compute. repeat split; reflexivity. Qed.
 
+(* objects WITHOUT modes (finding C16-N2, repaired in /repo b512e35): ttb.tensor(), ttb.sptensor(), ttb.ktensor() and a 0-d
+   array are written with the order line 0 and an EMPTY sizes line, and come back; a sparse file of order 0 that announces an
+   entry, a Kruskal file of order 0 with a rank, a 0-d matrix file without its value are rejected; a sizes line that does
+   not match the order line is rejected both ways *)
+Example C16_order0_reimported :
+  zexport_lines 1 (OTensor (mkDense [] (@nil Z))) = [[Word "tensor"]; [Int 0]; []; []]%Z
+  /\ zimport_lines 1 [[Word "tensor"]; [Int 0]; []; []]%Z = Some (OTensor (mkDense [] (@nil Z)))
+  /\ zimport 1 (zexport 1 (OTensor (mkDense [] (@nil Z)))) = Some (OTensor (mkDense [] (@nil Z)))
+  /\ zexport_lines 1 (OSptensor (mkSp [] [] (@nil Z))) = [[Word "sptensor"]; [Int 0]; []; [Int 0]]%Z
+  /\ zimport_lines 1 [[Word "sptensor"]; [Int 0]; []; [Int 0]]%Z = Some (OSptensor (mkSp [] [] (@nil Z)))
+  /\ zimport_lines 1 [[Word "sptensor"]; [Int 0]; []; [Int 1]; [Num 7]]%Z = None
+  /\ zexport_lines 1 (OKtensor (mkK (@nil Z) [])) = [[Word "ktensor"]; [Int 0]; []; [Int 0]; []]%Z
+  /\ zimport_lines 1 [[Word "ktensor"]; [Int 0]; []; [Int 0]; []]%Z = Some (OKtensor (mkK (@nil Z) []))
+  /\ zimport_lines 1 [[Word "ktensor"]; [Int 0]; []; [Int 1]; [Num 7]]%Z = None
+  /\ zexport_lines 1 (OArray [] [7]%Z) = [[Word "matrix"]; [Int 0]; []; [Num 7]]%Z
+  /\ zimport_lines 1 [[Word "matrix"]; [Int 0]; []; [Num 7]]%Z = Some (OArray [] [7]%Z)
+  /\ zimport_lines 1 [[Word "matrix"]; [Int 0]; []; []]%Z = None
+  /\ zimport_lines 1 [[Word "tensor"]; [Int 0]; [Int 1]; [Num 7]]%Z = None
+  /\ zimport_lines 1 [[Word "tensor"]; [Int 1]; []; [Num 7]]%Z = None
+  /\ zimport_lines 1 [[Word "tensor"]; [Int 0]; []; [Num 7]]%Z = Some (OTensor (mkDense [] (@nil Z))).   (* what follows is never read *)
+Proof. vm_compute. repeat split; reflexivity. Qed.
+
 (* long modes: subscripts above 2^53 (not representable as doubles) travel exactly, with every index base *)
 Example C16_example_long :
   let S := mkSpz [1152921504606846976; 3]%Z [[1152921504606846975; 2]; [9007199254740993; 0]]%Z [7; 9]%Z in
@@ -307,6 +380,20 @@ Example C16_example_text :
                      ATok (Int 1); ALF; ATok (Int 2); ABlank; ATok (Int 3); ABlank; ATok (Num 7); ALF]%Z = None
   /\ zimport_text 1 [ATok (Word "tensor"); ALF; ATok (Int 1); ALF; ATok (Int 3); ALF;
                      ATok (Num 10); ABlank; ABlank; ABlank; ATok (Num 11); ALF; ABlank; ALF; ATok (Num 12)]%Z
+       = Some (OTensor (mkDense [3] [10; 11; 12]%Z)).
+Proof. vm_compute. repeat split; reflexivity. Qed.
+
+(* carriage returns: a lone CR inside a line is white space like a tab (harmless next to a blank or among VALUES, one
+   unreadable piece when it joins two texts of a header line); a file with old-Mac line ends (lone CRs only) is one line *)
+Example C16_example_cr :
+  let S := mkSp [2; 3] [[1; 2]] [7]%Z in
+  zimport_text 1 [ATok (Word "sptensor"); ACR; ALF; ATok (Int 2); ALF; ATok (Int 2); ABlank; ACR; ATok (Int 3); ACR; ACR; ALF;
+                  ATok (Int 1); ALF; ACR; ATok (Int 2); ABlank; ATok (Int 3); ACR; ABlank; ATok (Num 7); ALF]%Z = Some (OSptensor S)
+  /\ zimport_text 1 [ATok (Word "sptensor"); ALF; ATok (Int 2); ALF; ATok (Int 2); ACR; ATok (Int 3); ALF;
+                     ATok (Int 1); ALF; ATok (Int 2); ABlank; ATok (Int 3); ABlank; ATok (Num 7); ALF]%Z = None
+  /\ zimport_text 1 [ATok (Word "tensor"); ACR; ATok (Int 1); ACR; ATok (Int 2); ACR; ATok (Num 10); ACR; ATok (Num 11); ACR]%Z = None
+  /\ zimport_text 1 [ATok (Word "tensor"); ALF; ATok (Int 1); ALF; ATok (Int 3); ACR; ALF;
+                     ATok (Num 10); ACR; ATok (Num 11); ACR; ALF; ACR; ATok (Num 12); ACR]%Z
        = Some (OTensor (mkDense [3] [10; 11; 12]%Z)).
 Proof. vm_compute. repeat split; reflexivity. Qed.
 
